@@ -17,14 +17,19 @@ Ev(e) == l <= N /\ Trace[l].ev = e /\ l' = l + 1
 KindOf(k) == IF k \in {"valid", "wrong"} THEN k ELSE "error"
 MapKinds(s) == [i \in DOMAIN s |-> KindOf(s[i])]
 
-TraceInit == l = 2 /\ TLCSet(1, 1) /\ Trace[1].ev = "reset" /\ AcceptInit
+Mark(cond, tag) == IF cond THEN PrintT(<<tag, l>>) ELSE TRUE      \* evidence counters, never a verdict
+
+TraceInit == l = 2 /\ TLCSet(1, 1) /\ Trace[1].ev = "reset" /\ AcceptInit(Trace[1].limit)
 
 TReset ==
   /\ Ev("reset")
   /\ have' = {} /\ status' = "idle" /\ certs' = <<>> /\ idx' = 1 /\ out' = <<>> /\ script' = <<>> /\ nreq' = 0 /\ res' = "none"
-TStore == Ev("store") /\ Store(T.c)
-TCall  == Ev("accept_call") /\ AcceptCall(T.certs, MapKinds(T.script))
+  /\ prod' = [c \in Chunks |-> "none"] /\ limit' = T.limit /\ pend' = {}
+TStore == Ev("store") /\ Store(T.c, T.p) /\ Mark(PW(T.p) + 1 > limit, "STORE_OVER_LIMIT")
+TCall  == Ev("accept_call") /\ AcceptCall(T.certs, T.prods, MapKinds(T.script))
+(* the chunk is fetched although it pushes its producer over the rate limit: must succeed all the same *)
 TReq   == Ev("req") /\ Request(T.want, KindOf(T.kind)) /\ T.n = nreq'
+          /\ Mark(KindOf(T.kind) = "valid" /\ OverLimit, "FETCH_OVER_LIMIT")
 TRet   == Ev("accept_ret") /\ AcceptReturn /\ T.res = "ok" /\ T.chunks = out      \* C35: ChunksExact, no error
 
 TraceNext == TReset \/ TStore \/ TCall \/ TReq \/ TRet
